@@ -1370,6 +1370,28 @@ func ruleReloadMode(rule string) ruleFn {
 		if n == 0 {
 			c.Bad(rule, FnName(fn)+" | new instance takes over mode", c.P.Pos(fn.Pos()), "Reload no longer sets the mode of the new instance (it starts in INIT)", nil)
 		}
+		// who may write a replica's mode at all: Reload (the old mode), SetReplicaMode (RW / WO,
+		// checked by SRV-GUARD), Close (CLOSED), and composite literals (INIT by default)
+		allowed := map[string]bool{fRep + "Reload": true, fRep + "SetReplicaMode": true, fRep + "Close": true}
+		for _, f := range pkgFuncs(c.P, "replica") {
+			root := f
+			for root.Parent() != nil {
+				root = root.Parent()
+			}
+			for _, st := range StoresTo(f, "Replica", "mode") {
+				key := FnName(f) + " | writes a replica's mode"
+				if allowed[FnName(root)] {
+					c.OK(rule, key, c.P.InstrPos(st), "allow-listed writer", false)
+					continue
+				}
+				v := NewRenderer(f).V(st.(*ssa.Store).Val)
+				if FnName(root) != fRep+"Reload" && (v == "$0.mode" || v == `"INIT"`) {
+					c.OK(rule, key, c.P.InstrPos(st), "hands on the old mode / initial mode", false)
+					continue
+				}
+				c.Bad(rule, key, c.P.InstrPos(st), "new writer of Replica.mode (value "+v+"): a reload / revert that does not carry the old mode over opens the gate of a WO or INIT replica", nil)
+			}
+		}
 	}
 }
 
